@@ -112,16 +112,17 @@ def check(run, driver):
     # ---- regimes the exact model is too slow for: larger blocks with one shared factor (well conditioned but small determinant)
     #      and columns whose mean is huge compared with their spread; implementation vs the least-squares reference
     for it in range(60 if thorough else 24):
-        kx, ky = int(rng.integers(3, 11)), int(rng.integers(3, 11)); kz = int(rng.integers(0, 3))
+        kx, ky = int(rng.integers(3, 11)), int(rng.integers(3, 11)); kz = int(rng.integers(0, 3)) * (it % 4 != 0)
         d = kx + ky + kz
         N = int(rng.integers(4 * d, 8 * d))
         if it % 2 == 0:
             common = rng.standard_normal((N, 1))
-            W = 0.8 * common + 0.6 * rng.standard_normal((N, d))
+            rho = float(rng.uniform(0.5, 0.88))          # equicorrelated block: condition number (1+(d-1)rho)/(1-rho) stays moderate
+            W = math.sqrt(rho) * common + math.sqrt(1 - rho) * rng.standard_normal((N, d))
         else:
             W = rng.standard_normal((N, d)) @ (rng.standard_normal((d, d)) * 0.3 + np.eye(d))
             W = W + float(2.0 ** rng.integers(12, 24)) * rng.choice([-1.0, 1.0], size=d)      # exact power-of-two shifts
-        if np.linalg.cond(np.corrcoef(W.T)) > 1e4:
+        if np.linalg.cond(np.corrcoef(W.T)) > 1e3:
             continue
         X, Y, Z = W[:, :kx], W[:, kx:kx + ky], (W[:, kx + ky:] if kz else None)
         val = float(gaussian_conditional_mutual_information(X, Y, Z))
